@@ -269,6 +269,32 @@ impl<Front: SocketHandler, L: ListenerHandler> Pipe<Front, L> {
         self.cluster_id = cluster_id;
     }
 
+    /// Release the backend connection this pipe owns. A WebSocket pipe takes
+    /// its backend connection out of the mux router at upgrade time
+    /// (`upgrade_mux`), so none of the mux close paths that pair the `+1`s of
+    /// `Router::connect` ever sees it again: the HTTP(S) session must give
+    /// the connection back itself when it closes, otherwise
+    /// `Backend::active_connections` (which load balancing reads) and the
+    /// `backend.connections` / `backend.pool.size` / `connections_per_backend`
+    /// gauges grow by one per WebSocket session, forever. Idempotent.
+    /// (TCP sessions keep their own `backend` handle and release it in
+    /// `TcpSession::remove_backend`; they must not call this.)
+    pub fn release_backend_connection(&mut self) {
+        let Some(backend) = self.backend.take() else {
+            return;
+        };
+        let mut backend = backend.borrow_mut();
+        backend.dec_connections();
+        gauge_add!(names::backend::CONNECTIONS, -1);
+        gauge_add!(names::backend::POOL_SIZE, -1);
+        gauge_add!(
+            names::backend::CONNECTIONS_PER_BACKEND,
+            -1,
+            self.cluster_id.as_deref(),
+            Some(&backend.backend_id)
+        );
+    }
+
     pub fn set_backend_id(&mut self, backend_id: Option<String>) {
         self.backend_id = backend_id;
     }
